@@ -1,8 +1,328 @@
-import SpyneModel.Wsgi
+/-
+  C13 — WSGI response protocol and request-size limit.
+  Property theorems only. Every theorem is about the model `Wsgi.handle` instantiated with the facts
+  regenerated from /repo (`Generated.facts13`); the side conditions on the facts are discharged by
+  `decide`, so a theorem stops compiling when the code stops having the behaviour it needs.
+
+  `handle facts13 cfg req stream abort : List Ev` is the trace of one request:
+    cfg    — chunked / max_content_length / block_length, any values
+    req    — ?wsdl or an rpc request: protocol family, CONTENT_LENGTH text (absent, empty, any text),
+             length of the request document, what the complete document leads to (malformed, unknown
+             method, validation error, each fault class raised by user code, success with a plain /
+             generator / user-supplied lazy or sized out_string, serialisation failure)
+    stream — an adversarial `wsgi.input`: the i-th read(n) returns min n aᵢ bytes, then EOF
+    abort  — `none`: the server takes the whole body; `some k`: it stops after k chunks; either way it
+             then calls close() on the iterable
+  All of these are universally quantified, without bounds, in every theorem below.
+-/
+import Proofs.Wsgi
 import SpyneModel.Generated.Facts13
 namespace SpyneModel.Props.C13
 open SpyneModel SpyneModel.Wsgi SpyneModel.Generated
 
-theorem stub : facts13.okStatus = 200 := by decide
+/-! ### the facts of /repo (T1) -/
+
+/-- the six behaviour switches measured on /repo have their good values: the context is finalised by
+    the response iterable (rpc and ?wsdl), chunks are joined as bytes, a non-numeric CONTENT_LENGTH
+    and an empty Soap11 body are Client faults, `next(g)` on a generator result is guarded -/
+theorem facts_good : facts13.Good := by decide
+
+/-- every status the transport can pick by itself is a three-digit HTTP status -/
+theorem builtin_statuses_are_three_digit (fc : FaultClass) :
+    (100 ≤ facts13.statusPlain fc ∧ facts13.statusPlain fc ≤ 599) ∧
+    (100 ≤ facts13.statusSoap fc ∧ facts13.statusSoap fc ≤ 599) ∧
+    (100 ≤ facts13.preRejectStatus ∧ facts13.preRejectStatus ≤ 599) ∧
+    (100 ≤ facts13.okStatus ∧ facts13.okStatus ≤ 599) ∧
+    (100 ≤ facts13.wsdlOkStatus ∧ facts13.wsdlOkStatus ≤ 599) ∧
+    (100 ≤ facts13.wsdlUnavailableStatus ∧ facts13.wsdlUnavailableStatus ≤ 599) ∧
+    (100 ≤ facts13.wsdlErrorStatus ∧ facts13.wsdlErrorStatus ≤ 599) := by
+  cases fc <;> decide
+
+/-- the request-too-long fault has a status of its own outside Soap11 (413) -/
+theorem too_long_status : facts13.statusPlain .tooLong = 413 := by decide
+
+/-! ### PEP 3333: start_response, body chunks, Content-Length -/
+
+/-- no exception escapes the callable, whatever the request, configuration, stream and abort point -/
+theorem never_crashes (cfg : Cfg) (req : Req) (stream : List Nat) (abort : Option Nat) :
+    ∀ e ∈ handle facts13 cfg req stream abort, isCrash e = false := by
+  obtain ⟨pre, o, h, _, _⟩ := handle_answered facts13 cfg req stream abort facts_good
+  exact h.no_crash
+
+/-- `start_response` is called exactly once -/
+theorem start_response_exactly_once (cfg : Cfg) (req : Req) (stream : List Nat) (abort : Option Nat) :
+    List.countP isStart (handle facts13 cfg req stream abort) = 1 := by
+  obtain ⟨pre, o, h, _, _⟩ := handle_answered facts13 cfg req stream abort facts_good
+  exact h.start_once
+
+/-- ... and before any body chunk -/
+theorem start_response_before_body (cfg : Cfg) (req : Req) (stream : List Nat) (abort : Option Nat) :
+    noneBefore isChunk isStart (handle facts13 cfg req stream abort) = true := by
+  obtain ⟨pre, o, h, _, _⟩ := handle_answered facts13 cfg req stream abort facts_good
+  exact h.start_before_chunks
+
+/-- the status is a three-digit code: it is one of the built-in ones (previous section) or one the
+    user function set itself -/
+theorem status_line (cfg : Cfg) (req : Req) (stream : List Nat) (abort : Option Nat)
+    (hp : ∀ p ∈ req.presets, 100 ≤ p ∧ p ≤ 599)
+    (s : Nat) (f : Option FaultClass) (c : Option Nat)
+    (hm : Ev.startResponse s f c ∈ handle facts13 cfg req stream abort) : 100 ≤ s ∧ s ≤ 599 := by
+  obtain ⟨pre, o, h, hr, hw⟩ := handle_answered facts13 cfg req stream abort facts_good
+  have hs : s = o.status := by
+    have hm' := hm
+    rw [h.eq, deliver_after _ _ h.timing] at hm'
+    simp only [List.mem_append, List.mem_cons] at hm'
+    rcases hm' with hm' | hm' | hm' | hm' | hm'
+    · have := h.pre _ hm'; simp [isPre, isRead, isUser] at this
+    · injection hm' with h1 _ _
+    · cases hm'
+    · obtain ⟨_, _, h1, _⟩ := mem_chunkEvs hm'; cases h1
+    · cases hc : o.closes <;> simp [hc, finalEvs] at hm'
+  subst hs
+  cases hwk : req.wsdl with
+  | some k =>
+    obtain ⟨_, rfl⟩ := hw k hwk
+    have := builtin_statuses_are_three_digit .client
+    cases k <;> simp only [wsdlOut] <;> omega
+  | none =>
+    obtain ⟨_, ho, _, _⟩ := hr hwk
+    rcases process_status facts13 cfg req stream o ho with ⟨fc, h1⟩ | ⟨fc, h1⟩ | h1 | h1 | h1
+    · rw [h1]; exact (builtin_statuses_are_three_digit fc).1
+    · rw [h1]; exact (builtin_statuses_are_three_digit fc).2.1
+    · rw [h1]; exact (builtin_statuses_are_three_digit .client).2.2.1
+    · rw [h1]; exact (builtin_statuses_are_three_digit .client).2.2.2.1
+    · exact hp _ h1
+
+/-- all body chunks are bytes (the ?wsdl error answers included) -/
+theorem body_chunks_are_bytes (cfg : Cfg) (req : Req) (stream : List Nat) (abort : Option Nat)
+    (n : Nat) (b : Bool) (hm : Ev.chunk n b ∈ handle facts13 cfg req stream abort) : b = true := by
+  obtain ⟨pre, o, h, hr, hw⟩ := handle_answered facts13 cfg req stream abort facts_good
+  have hc := h.chunks_of n b hm
+  cases hwk : req.wsdl with
+  | some k =>
+    obtain ⟨_, rfl⟩ := hw k hwk
+    have hb : facts13.wsdlErrBytes = true := by decide
+    cases k <;> simp [wsdlOut, hb] at hc <;> exact hc.2
+  | none => exact (hr hwk).2.2.2 _ hc
+
+/-- a Content-Length header, when sent, equals the number of body bytes: the delivered bytes never
+    exceed it, and reach it exactly when the server takes the whole body -/
+theorem content_length_exact (cfg : Cfg) (req : Req) (stream : List Nat) (abort : Option Nat)
+    (s : Nat) (f : Option FaultClass) (n : Nat)
+    (hm : Ev.startResponse s f (some n) ∈ handle facts13 cfg req stream abort) :
+    bodyBytes (handle facts13 cfg req stream abort) ≤ n ∧
+    (abort = none → bodyBytes (handle facts13 cfg req stream abort) = n) := by
+  obtain ⟨pre, o, h, _, _⟩ := handle_answered facts13 cfg req stream abort facts_good
+  exact h.content_length s f n hm
+
+/-- with `chunked=False` every rpc answer carries a Content-Length -/
+theorem unchunked_sends_content_length (cfg : Cfg) (req : Req) (stream : List Nat) (abort : Option Nat)
+    (hc : cfg.chunked = false) (hw : req.wsdl = none) :
+    ∃ s f n, Ev.startResponse s f (some n) ∈ handle facts13 cfg req stream abort := by
+  obtain ⟨pre, o, h, hr, _⟩ := handle_answered facts13 cfg req stream abort facts_good
+  obtain ⟨_, ho, _, _⟩ := hr hw
+  obtain ⟨n, hn⟩ := process_unchunked_cl facts13 cfg req stream o facts_good hc ho
+  refine ⟨o.status, o.fault, n, ?_⟩
+  rw [h.eq, deliver_after _ _ h.timing, hn]
+  simp
+
+/-- a server that stops after `k` chunks is handed at most `k` chunks -/
+theorem abort_respected (cfg : Cfg) (req : Req) (stream : List Nat) (k : Nat) :
+    List.countP isChunk (handle facts13 cfg req stream (some k)) ≤ k := by
+  obtain ⟨pre, o, h, _, _⟩ := handle_answered facts13 cfg req stream (some k) facts_good
+  exact h.abort_respected k
+
+/-! ### the request-size limit -/
+
+/-- at most `max_content_length` bytes are ever read from the input stream — for every
+    CONTENT_LENGTH text, every block length and every behaviour of the stream -/
+theorem bounded_read (cfg : Cfg) (req : Req) (stream : List Nat) (abort : Option Nat) :
+    bytesGot (handle facts13 cfg req stream abort) ≤ cfg.maxLen := by
+  have := readBody_bounded cfg req.contentLength stream
+  rcases bytesGot_handle facts13 cfg req stream abort with h | h <;> omega
+
+/-- ... and never more than the declared length -/
+theorem read_within_declared (cfg : Cfg) (req : Req) (stream : List Nat) (abort : Option Nat) (d : Int)
+    (hd : declaredLength cfg req.contentLength = some d) :
+    bytesGot (handle facts13 cfg req stream abort) ≤ d.toNat := by
+  have := readBody_within_declared cfg req.contentLength stream d hd
+  rcases bytesGot_handle facts13 cfg req stream abort with h | h <;> omega
+
+/-- every `read` asks for at most `block_length` bytes (and the stream cannot return more) -/
+theorem reads_are_blockwise (cfg : Cfg) (req : Req) (stream : List Nat) (abort : Option Nat) (a g : Nat)
+    (h : Ev.read a g ∈ handle facts13 cfg req stream abort) : a ≤ cfg.blockLen ∧ g ≤ a :=
+  reads_ok facts13 cfg req stream abort a g h
+
+/-- the reader stops with the stream (no busy loop, even with `block_length = 0`) -/
+theorem reader_terminates (cfg : Cfg) (req : Req) (stream : List Nat) (abort : Option Nat) :
+    List.countP isRead (handle facts13 cfg req stream abort) ≤ stream.length + 1 :=
+  reads_le_stream facts13 cfg req stream abort
+
+/-- the input is read before the user function runs and before `start_response` -/
+theorem reads_precede_user_code_and_response (cfg : Cfg) (req : Req) (stream : List Nat) (abort : Option Nat) :
+    noneAfter isRead (fun e => isUser e || isStart e) (handle facts13 cfg req stream abort) = true :=
+  reads_first facts13 cfg req stream abort
+
+/-- the request-too-long decision is taken on the declared length alone: the check inside the read
+    loop (`bytes_to_read + bytes_read > max_content_length`) can never fire -/
+theorem too_long_iff_declared_over_limit (cfg : Cfg) (cl : Option Text) (stream : List Nat) :
+    (readBody cfg cl stream).2 = .tooLong ↔ ∃ d, declaredLength cfg cl = some d ∧ d > (cfg.maxLen : Int) :=
+  readBody_tooLong_iff cfg cl stream
+
+/-
+  FULL STATEMENT of the refusal clause (not provable, see the witness below):
+    for a request whose protocol reads the body,
+      (declared length > max_content_length  ∨  bytes the stream holds > max_content_length)
+      → the answer is the request-too-long fault ∧ no user code runs.
+  Proved (`_partial`): the first disjunct — a declared length over the limit. Missing: a body that is
+  longer than the limit while CONTENT_LENGTH is absent. The reader then takes the first
+  max_content_length bytes and processes them as if they were the request
+  (`undeclared_overlong_body_is_truncated`); reported as known finding
+  `toolong-not-refused:undeclared`.
+-/
+/-- a body declared longer than `max_content_length` is refused with the request-too-long fault:
+    nothing is read, the user function is not entered, and the trace is exactly the fault answer -/
+theorem too_long_refused_partial (cfg : Cfg) (req : Req) (stream : List Nat) (abort : Option Nat) (d : Int)
+    (hw : req.wsdl = none) (hp : req.preReject = false) (hb : req.readsBody = true)
+    (hd : declaredLength cfg req.contentLength = some d) (h : d > (cfg.maxLen : Int)) :
+    handle facts13 cfg req stream abort =
+      .startResponse (faultStatus facts13 req .tooLong) (some .tooLong) (some req.faultLen) :: .returned ::
+        (chunkEvs (taken abort [(req.faultLen, true)]) ++ [.ctxClosed, .wsgiClose]) := by
+  have ht : facts13.closeTiming = .afterBody := by decide
+  simp [handle, hw, process_declared_over facts13 cfg req stream d hp hb hd h, finish, errorOut, deliver, ht,
+    finalEvs]
+
+/-- consequence: no read, no user code -/
+theorem too_long_reads_nothing_runs_nothing (cfg : Cfg) (req : Req) (stream : List Nat) (abort : Option Nat) (d : Int)
+    (hw : req.wsdl = none) (hp : req.preReject = false) (hb : req.readsBody = true)
+    (hd : declaredLength cfg req.contentLength = some d) (h : d > (cfg.maxLen : Int)) :
+    ∀ e ∈ handle facts13 cfg req stream abort, isRead e = false ∧ isUser e = false := by
+  rw [too_long_refused_partial cfg req stream abort d hw hp hb hd h]
+  intro e he
+  simp only [List.mem_cons, List.mem_append] at he
+  rcases he with rfl | rfl | he | rfl | rfl | he
+  · exact ⟨rfl, rfl⟩
+  · exact ⟨rfl, rfl⟩
+  · obtain ⟨n, b, rfl, _⟩ := mem_chunkEvs he; exact ⟨rfl, rfl⟩
+  · exact ⟨rfl, rfl⟩
+  · exact ⟨rfl, rfl⟩
+  · cases he
+
+/-- witness that the full refusal clause fails: no CONTENT_LENGTH, 15 bytes on the stream, a limit of
+    10 bytes, a 10-byte document — the first 10 bytes are read and the user function runs -/
+theorem undeclared_overlong_body_is_truncated :
+    ∃ (cfg : Cfg) (req : Req) (stream : List Nat),
+      req.contentLength = none ∧ req.readsBody = true ∧ sum stream > cfg.maxLen ∧
+      Ev.user ∈ handle facts13 cfg req stream none ∧ bytesGot (handle facts13 cfg req stream none) = cfg.maxLen :=
+  ⟨⟨true, 10, 8192⟩,
+   { wsdl := none, soapOut := false, soapIn := false, preReject := false, readsBody := true,
+     contentLength := none, docLen := 10, faultLen := 50,
+     intended := .success ⟨none, .notGen, false, [4], true⟩ },
+   [15], by decide⟩
+
+/-- the user function is entered only for a document that calls it, at most once, and — when the
+    protocol reads a body — only after the complete document has arrived within the limit -/
+theorem user_code_needs_complete_document (cfg : Cfg) (req : Req) (stream : List Nat) (abort : Option Nat)
+    (hw : req.wsdl = none) (hu : Ev.user ∈ handle facts13 cfg req stream abort) :
+    ((∃ fc p, req.intended = .userFault fc p) ∨ (∃ r, req.intended = .success r)) ∧
+    req.preReject = false ∧
+    (req.readsBody = true →
+      req.docLen ≤ bytesGot (handle facts13 cfg req stream abort) ∧
+      ∀ d, declaredLength cfg req.contentLength = some d → d ≤ (cfg.maxLen : Int)) := by
+  have hu' : Ev.user ∈ (process facts13 cfg req stream).1 := by
+    simp only [handle, hw, List.mem_append] at hu
+    rcases hu with hu | hu
+    · exact hu
+    · exact absurd (isRead_finish _ _ _ hu).2 (by simp [isUser])
+  obtain ⟨h1, h2, h3⟩ := process_user facts13 cfg req stream hu'
+  refine ⟨h1, h2, fun hb => ?_⟩
+  obtain ⟨hpos, hdoc, hdecl⟩ := h3 hb
+  refine ⟨?_, hdecl⟩
+  rw [bytesGot_handle_reads facts13 cfg req stream abort hw h2 hb]
+  exact hdoc
+
+theorem user_code_at_most_once (cfg : Cfg) (req : Req) (stream : List Nat) (abort : Option Nat) :
+    List.countP isUser (handle facts13 cfg req stream abort) ≤ 1 := by
+  have hz : ∀ l : List Ev, (∀ e ∈ l, isUser e = false) → List.countP isUser l = 0 := by
+    intro l hl; rw [List.countP_eq_zero]; intro e he; simp [hl e he]
+  unfold handle
+  split
+  · rw [hz _ (fun e he => (isRead_deliver _ _ e he).2)]; omega
+  · show List.countP isUser ((process facts13 cfg req stream).1 ++ finish (process facts13 cfg req stream).2 abort) ≤ 1
+    rw [List.countP_append, hz _ (fun e he => (isRead_finish _ _ e he).2)]
+    exact countP_user_process facts13 cfg req stream
+
+/-! ### the request context -/
+
+/-- the request context is closed exactly once, not before the callable has returned its iterable
+    and not before the last chunk the server takes — for every request (rpc answers, fault answers,
+    ?wsdl in its three outcomes) and every abort point -/
+theorem context_closed_once_after_body (cfg : Cfg) (req : Req) (stream : List Nat) (abort : Option Nat) :
+    List.countP isClosed (handle facts13 cfg req stream abort) = 1 ∧
+    noneAfter isChunk isClosed (handle facts13 cfg req stream abort) = true ∧
+    noneBefore isClosed isReturned (handle facts13 cfg req stream abort) = true := by
+  obtain ⟨pre, o, h, hr, hw⟩ := handle_answered facts13 cfg req stream abort facts_good
+  apply h.closed_once
+  cases hwk : req.wsdl with
+  | some k =>
+    obtain ⟨_, rfl⟩ := hw k hwk
+    have hb : facts13.wsdlErrClosed = true := by decide
+    cases k <;> simp [wsdlOut, hb]
+  | none => rw [(hr hwk).2.2.1]; simp
+
+/-- the `wsgi_close` event of an rpc request fires exactly once, after the body -/
+theorem wsgi_close_once_after_body (cfg : Cfg) (req : Req) (stream : List Nat) (abort : Option Nat)
+    (hw : req.wsdl = none) :
+    List.countP isWsgiClose (handle facts13 cfg req stream abort) = 1 ∧
+    noneAfter isChunk isWsgiClose (handle facts13 cfg req stream abort) = true := by
+  obtain ⟨pre, o, h, hr, _⟩ := handle_answered facts13 cfg req stream abort facts_good
+  exact h.wsgi_close_once (hr hw).2.2.1
+
+/-- `?wsdl`: the exact trace of the three outcomes, fully consumed -/
+theorem wsdl_conformance (cfg : Cfg) (req : Req) (stream : List Nat) (len : Nat) :
+    (req.wsdl = some (.ok len) → handle facts13 cfg req stream none =
+      [.startResponse 200 none (some len), .returned, .chunk len true, .ctxClosed]) ∧
+    (req.wsdl = some .unavailable → handle facts13 cfg req stream none =
+      [.startResponse 404 none none, .returned, .chunk 13 true, .ctxClosed]) ∧
+    (req.wsdl = some .buildError → handle facts13 cfg req stream none =
+      [.startResponse 500 none none, .returned, .chunk 25 true, .ctxClosed]) := by
+  refine ⟨?_, ?_, ?_⟩ <;> intro h <;>
+    simp [handle, h, deliver, wsdlOut, facts13, chunkEvs, taken, finalEvs]
+
+/-! ### non-vacuity: the hypotheses above are satisfiable and the model is not trivial -/
+
+def exCfg : Cfg := ⟨true, 100, 7⟩
+def exReq : Req :=
+  { wsdl := none, soapOut := false, soapIn := false, preReject := false, readsBody := true,
+    contentLength := some "20".toList, docLen := 20, faultLen := 30,
+    intended := .success ⟨none, .yields, false, [1, 2, 3], true⟩ }
+
+example : handle facts13 exCfg exReq [5, 100, 100, 100] (some 2) =
+    [.read 7 5, .read 7 7, .read 7 7, .read 1 1, .user, .startResponse 200 none (some 6), .returned,
+     .chunk 1 true, .chunk 2 true, .ctxClosed, .wsgiClose] := by decide +kernel
+
+-- a declared length over the limit (hypotheses of `too_long_refused_partial`)
+example : declaredLength exCfg (some "101".toList) = some 101 ∧ (101 : Int) > (exCfg.maxLen : Int) := by
+  decide +kernel
+example : handle facts13 exCfg { exReq with contentLength := some "101".toList } [200] none =
+    [.startResponse 413 (some .tooLong) (some 30), .returned, .chunk 30 true, .ctxClosed, .wsgiClose] := by
+  decide +kernel
+-- a non-numeric CONTENT_LENGTH is a Client fault
+example : handle facts13 exCfg { exReq with contentLength := some "abc".toList } [200] none =
+    [.startResponse 400 (some .client) (some 30), .returned, .chunk 30 true, .ctxClosed, .wsgiClose] := by
+  decide +kernel
+-- the user function runs (hypothesis of `user_code_needs_complete_document`)
+example : Ev.user ∈ handle facts13 exCfg exReq [7, 7, 6] none := by decide +kernel
+-- user-chosen statuses in range (hypothesis of `status_line`)
+example : ∀ p ∈ ({ exReq with intended := .userFault .client (some 418) } : Req).presets, 100 ≤ p ∧ p ≤ 599 := by
+  decide
+-- unchunked, rpc (hypotheses of `unchunked_sends_content_length`)
+example : handle facts13 ⟨false, 100, 7⟩ exReq [100, 100, 100] none =
+    [.read 7 7, .read 7 7, .read 6 6, .user, .startResponse 200 none (some 6), .returned, .chunk 6 true,
+     .ctxClosed, .wsgiClose] := by decide +kernel
+-- an aborted generator body
+example : handle facts13 exCfg { exReq with intended := .success ⟨some 201, .notGen, false, [1, 2, 3], false⟩ } [9, 9, 9] (some 0) =
+    [.read 7 7, .read 7 7, .read 6 6, .user, .startResponse 201 none none, .returned, .ctxClosed, .wsgiClose] := by
+  decide +kernel
 
 end SpyneModel.Props.C13
